@@ -307,6 +307,9 @@ def run(ctx: Ctx):
         ck = [2, 3, 2][(j + ctx.seed) % 3]
         sh_cases.append({"sc": dict(mols=mols, molid=list(range(len(mols))), cad=dict(data=1, coordinates=1, velocities=1, forces=1, nonadiabatic=1, ckpt=ck), steps=ck + 3, dt=0.5, temp=300.0,
                                     n_states=2 + (j % 2), seed=int(ctx.rng.integers(1, 999))), "stop_at": ck})
+    # ... thermostatted surface hopping (the random numbers of the thermostat, of the coupling estimate and of the hop decision come from one generator)
+    sh_cases.append({"sc": dict(mols=[["ch2o"], ["h2o"]][(ctx.seed + 1) % 2], molid=[0], cad=dict(data=1, coordinates=1, velocities=1, forces=1, nonadiabatic=1, ckpt=2), steps=5, dt=0.5, temp=300.0, n_states=2,
+                                damp=float(ctx.rng.choice([10.0, 40.0])), seed=int(ctx.rng.integers(1, 999))), "stop_at": 2})
     # ... and the excited-state extended-Lagrangian engine XL_ESMD (its checkpoints could not be resumed at all before eb27277)
     sh_cases.append({"sc": dict(engine="xlesmd", mols=[["ch2o"], ["h2o"]][ctx.seed % 2], molid=[0], cad=dict(data=1, coordinates=1, velocities=1, forces=1, ckpt=[4, 3][ctx.seed % 2]), steps=[8, 7][ctx.seed % 2],
                                 dt=0.2, temp=300.0, n_states=3, k=[6, 4][ctx.seed % 2], reuse_P=bool(ctx.seed % 2), seed=int(ctx.rng.integers(1, 999))), "stop_at": [4, 3][ctx.seed % 2]})
